@@ -145,6 +145,19 @@ fn sasl_bind_req(mech: &str, creds: Option<&[u8]>) -> Tag {
     })
 }
 
+#[cfg(ldap3_verif)]
+impl Ldap {
+    /// Verification hook: the shared (last id, in-use ids) table.
+    pub fn verif_msgmap(&self) -> Arc<Mutex<(RequestId, HashSet<RequestId>)>> {
+        self.msgmap.clone()
+    }
+
+    /// Verification hook: run the id allocator directly.
+    pub fn verif_next_msgid(&mut self) -> RequestId {
+        self.next_msgid()
+    }
+}
+
 impl Ldap {
     fn next_msgid(&mut self) -> i32 {
         let mut msgmap = self.msgmap.lock().expect("msgmap mutex (inc id)");
